@@ -1259,7 +1259,8 @@ def w_collapse(failure, tier):
            "numeric_fields": [{"name": "rating", "i64": False, "fast": True, "stored": True}]}
     sorts = [None, [{"field": "rating", "order": "desc"}], [{"field": "rating", "order": "asc"}, {"field": "_score", "order": "desc"}]]
     inners = [None, {}, {"size": 2}, {"from": 1}, {"from": 1, "size": 1}, {"size": 0}, {"from": 9},
-              {"sort": [{"field": "rating", "order": "asc"}], "size": 3}]
+              {"sort": [{"field": "rating", "order": "asc"}], "size": 3}, {"sort": [{"field": "rating", "order": "desc"}], "size": 1},
+              {"sort": [{"field": "rating", "order": "desc"}], "from": 1, "size": 1}, {"sort": [{"field": "rating", "order": "asc"}], "from": 2}]
     reqs, meta = [], []
     for q in ("rust", {"type": "match_all"}):
         for srt in sorts:
@@ -1299,7 +1300,8 @@ def w_collapse(failure, tier):
                 inner = []
             else:
                 if ih.get("sort"):
-                    others = sorted(others, key=lambda x: (rating[x], x))     # ties: segment, then document order = id order here
+                    desc = ih["sort"][0]["order"] == "desc"
+                    others = sorted(others, key=lambda x: (-rating[x] if desc else rating[x], x))     # ties: segment, then document order = id order here
                 inner = others[ih.get("from", 0):]
                 if "size" in ih:
                     inner = inner[:ih["size"]]
@@ -1310,7 +1312,7 @@ def w_collapse(failure, tier):
             return dict(found=True, cmd='%s search <<< hex(json)' % BIN,
                         input='14 documents in 3 segments (k values %s); query %s, sort %s, collapse %s' % (vals, _json.dumps(r['query']), _json.dumps(r.get('sort')), _json.dumps(r['collapse'])),
                         observed='groups %s total_groups %s' % (got, o['ok'].get('total_groups')), expected='groups %s total_groups %d (from the uncollapsed ranking %s)' % (want, len(want), ref))
-    return dict(found=False, note='collapse: %d requests (2 queries x 3 sorts x up to 8 inner_hits settings) agree with the uncollapsed ranking' % n)
+    return dict(found=False, note='collapse: %d requests (2 queries x 3 sorts x up to 11 inner_hits settings) agree with the uncollapsed ranking' % n)
 
 
 def w_relocate(failure, tier):
@@ -1359,6 +1361,7 @@ GENERATORS = {
     ('U38', 'open_files'): w_relocate,
     ('U37', 'collapse_group'): w_collapse,
     ('U37', 'collapse_pick'): w_collapse,
+    ('U37', 'resort_hits'): w_collapse,
     ('U36', 'dismax_arm'): w_boost,
     ('U36', 'bool_arm'): w_boost,
     ('U36', 'function_score_arm'): w_boost,
